@@ -7,6 +7,7 @@ row, cover padding, closing rounds) are in the second half, over the model of `b
 import Wheatley.Lemmas.Gen
 import Wheatley.Lemmas.StartRow
 import Wheatley.Model.Bot
+import Wheatley.Lemmas.Complete
 namespace Wheatley.C01
 
 /-- One change never loses or duplicates a bell: for every stage, every row and **every** place
@@ -54,32 +55,8 @@ example : ∃ g, mkGrandsire 7 none = some g ∧ g.Permuting ∧ g.startRow = ro
 that big: the bells appended for the tower (`generate_starting_row(number_of_bells, …)`) come after
 the ones appended for the stage. -/
 theorem opening_extends_start_row (stage n : Nat) (cs : Option Row) (sr op : Row) (hle : stage ≤ n)
-    (hs : startingRow stage cs = some sr) (ho : startingRow n cs = some op) : sr <+: op := by
-  unfold startingRow at hs ho
-  cases cs with
-  | none =>
-    simp only [Option.some.injEq] at hs ho
-    subst hs ho
-    obtain ⟨k, rfl⟩ := Nat.exists_eq_add_of_le hle
-    refine ⟨(List.range' stage k).map (· + 1), ?_⟩
-    simp only [rounds, List.range_eq_range', ← List.map_append]
-    congr 1
-    have := List.range'_append_1 (s := 0) (m := stage) (n := k)
-    simpa using this
-  | some c =>
-    simp only at hs ho
-    split at hs
-    · cases hs
-    · rename_i hd
-      simp only [hd, Bool.false_eq_true, if_false, Option.some.injEq] at hs ho
-      subst hs ho
-      obtain ⟨k, rfl⟩ := Nat.exists_eq_add_of_le hle
-      unfold appendMissing
-      refine ⟨((List.range' stage k).map (· + 1)).filter (fun b => !c.contains b), ?_⟩
-      rw [List.append_assoc, ← List.filter_append, ← List.map_append]
-      congr 3
-      have := List.range'_append_1 (s := 0) (m := stage) (n := k)
-      simpa [List.range_eq_range'] using this
+    (hs : startingRow stage cs = some sr) (ho : startingRow n cs = some op) : sr <+: op :=
+  Complete.opening_extends stage n cs sr op hle hs ho
 
 /-- **The Bot's padding completes the row**: when the generated row is a permutation of the
 generator's start row and that start row is a prefix of the opening row, the row the Bot rings —
@@ -107,4 +84,124 @@ theorem bot_opening_and_rounds (b : Bot) :
   constructor
   · intro h; simp [Bot.generateNextRow, h]
   · intro h1 h2; simp [Bot.generateNextRow, h1, h2]
+
+/-! ### System level: every row of every run
+
+The statements above are about one generator history or one `generate_next_row`.  This one is about the whole
+program: the timed world of `Model/World.lean` - main thread, socket thread, clock - run for any number of steps on
+any history of events, delivered at any times. -/
+
+section System
+variable {K : Type} [Num K]
+open Complete
+
+/-- **Whenever Wheatley is ringing, the row it is ringing or waiting for is a complete row of the tower** - in every
+state of every run.  `N` is the size of the tower, which the events leave alone (`Fixed N`: strikes and global
+states describe `N` bells, size messages repeat `N`, selections have at most `N` bells and complete rows);
+everything else is arbitrary: Look To at any moment (also during a touch, also while its own handler is still
+asleep), Go, Bob, Single, That's all, Rounds, Stand, assignments, comings and goings, settings, selections, Stop
+Touch, the bells set at hand - in any order, at any times, for as many steps as you like (`fuel`).
+
+`Inv N` of the starting state is what the first global state establishes (`loaded_complete`). -/
+theorem every_row_is_complete (N : Nat) (wt : K → K) (endTime : K) (fuel : Nat) (w : World K)
+    (events : List (K × Ev)) (hs : ∀ ev ∈ events, Fixed N ev.2) (h : Inv N w.bot) :
+    (World.run wt endTime fuel w events).1.bot.isRinging = true →
+      (World.run wt endTime fuel w events).1.bot.row.Perm (rounds N) :=
+  ((botInvariant N).run wt endTime fuel w events hs h).2
+
+/-- ... so no bell is struck twice in it and none is omitted: the row has no repetition and its bells are exactly
+`1 … N`. -/
+theorem every_row_each_bell_once (N : Nat) (wt : K → K) (endTime : K) (fuel : Nat) (w : World K)
+    (events : List (K × Ev)) (hs : ∀ ev ∈ events, Fixed N ev.2) (h : Inv N w.bot)
+    (hr : (World.run wt endTime fuel w events).1.bot.isRinging = true) :
+    (World.run wt endTime fuel w events).1.bot.row.Nodup ∧
+    ∀ x, x ∈ (World.run wt endTime fuel w events).1.bot.row ↔ (1 ≤ x ∧ x ≤ N) := by
+  have hperm := every_row_is_complete N wt endTime fuel w events hs h hr
+  exact ⟨hperm.nodup_iff.mpr (rounds_nodup N), fun x => (hperm.mem_iff).trans (mem_rounds N x)⟩
+
+/-- The queue, the opening row and rounds stay in order too (the static part of the invariant), whether Wheatley is
+ringing or not: in every state the opening row is a complete row of the tower and extends the generator's start
+row, and whatever is queued for the next touch fits the tower. -/
+theorem opening_row_always_complete (N : Nat) (wt : K → K) (endTime : K) (fuel : Nat) (w : World K)
+    (events : List (K × Ev)) (hs : ∀ ev ∈ events, Fixed N ev.2) (h : Inv N w.bot) :
+    (World.run wt endTime fuel w events).1.bot.openingRow.Perm (rounds N) ∧
+    (World.run wt endTime fuel w events).1.bot.gen.startRow <+: (World.run wt endTime fuel w events).1.bot.openingRow ∧
+    (World.run wt endTime fuel w events).1.bot.rounds = rounds N := by
+  have hi := ((botInvariant N).run wt endTime fuel w events hs h).1
+  exact ⟨hi.opening, hi.pre, hi.rounds⟩
+
+/-- The hypothesis is what `wait_loaded` waits for: a freshly built Bot that has received its first
+`s_global_state` satisfies the invariant for the size that state describes - for any generator with complete rows
+(`GoodGen`: nothing to ask of notation- and rule-driven ones) whose start row was made by `generate_starting_row`
+for a stage within the tower (`Started`; what `Look To` would otherwise refuse, C17). -/
+theorem loaded_complete (g : Gen) (u s c : Bool) (nm : Option String) (id : Option Nat) (st : List Bool)
+    (hg : GoodGen g) (hst : Started st.length g) (hsrv : id.isSome = true → g.customStart = none) :
+    Inv st.length ((Bot.init g u s c nm id).onMsg (.globalState st)).1 := by
+  unfold Bot.onMsg
+  simp only []
+  generalize hq : ({ Bot.init g u s c nm id with
+    tower := (Bot.init g u s c nm id).tower.apply (.globalState st) } : Bot) = q
+  have hq1 : q.n = st.length := by subst hq; rfl
+  have hq2 : q.gen = g := by subst hq; rfl
+  have hq3 : q.isRinging = false := by subst hq; rfl
+  have hq4 : q.nextGen = none := by subst hq; rfl
+  have hq5 : q.serverId = id := by subst hq; rfl
+  obtain ⟨op, hop⟩ : ∃ op, startingRow q.n q.gen.customStart = some op := by
+    rw [hq2]
+    obtain ⟨h1, _, _⟩ := hst
+    unfold startingRow at h1 ⊢
+    cases hcs : g.customStart with
+    | none => exact ⟨_, rfl⟩
+    | some cs =>
+      rw [hcs] at h1
+      simp only [] at h1 ⊢
+      split at h1
+      · cases h1
+      · rename_i hd; simp [hd]
+  unfold Bot.onSizeChange
+  simp only [hop]
+  refine ⟨?_, ?_⟩
+  · exact { size := hq1, rounds := (by show rounds q.n = rounds st.length; rw [hq1]),
+            op := (by show startingRow st.length q.gen.customStart = some op; rw [← hq1]; exact hop),
+            gen := (by show GoodGen q.gen; rw [hq2]; exact hg),
+            started := (by show Started st.length q.gen; rw [hq2]; exact hst),
+            srv := (by
+              intro hsm
+              show q.gen.customStart = none
+              rw [hq2]
+              apply hsrv
+              have : q.serverId.isSome = true := hsm
+              rw [hq5] at this
+              exact this),
+            queued := (by
+              intro g' hg'
+              have : (none : Option Gen) = some g' := by
+                rw [← hg']
+                show none = (match q.nextGen with
+                  | some g => if ({ q with openingRow := op, rounds := rounds q.n } : Bot).checkNumberOfBells g then some g else none
+                  | none => none)
+                rw [hq4]
+              cases this) }
+  · intro hr
+    have : q.isRinging = true := hr
+    rw [hq3] at this
+    cases this
+
+/-- Non-vacuity: Grandsire Triples in a tower of eight, the tower loaded, then Look To, Go, a Bob, the bells set at
+hand again - all events of the class, the start state satisfies the invariant. -/
+example : ∃ g, mkGrandsire 7 none = some g ∧ GoodGen g ∧ Started 8 g ∧
+    (∀ e ∈ [Ev.msg (.call "Look to"), .msg (.call "Go"), .msg (.call "Bob"), .msg (.globalState (List.replicate 8 true)),
+            .msg (.bellRung (List.replicate 8 false) 3), .resume], Fixed 8 e) := by
+  refine ⟨(mkGrandsire 7 none).get (by decide), by simp, ⟨List.Perm.refl _, ?_⟩, ⟨by decide, by decide, ?_⟩, ?_⟩
+  · have : ((mkGrandsire 7 none).get (by decide)).kind.permuting = true := by decide
+    revert this
+    cases ((mkGrandsire 7 none).get (by decide)).kind <;> simp [GoodKind, GenKind.permuting]
+  · intro c hc
+    have : ((mkGrandsire 7 none).get (by decide)).customStart = none := by decide
+    rw [this] at hc; cases hc
+  · intro e he
+    simp only [List.mem_cons, List.mem_nil_iff, or_false] at he
+    rcases he with rfl | rfl | rfl | rfl | rfl | rfl <;> simp [Fixed]
+
+end System
 end Wheatley.C01
